@@ -52,7 +52,9 @@ def readLeb : Nat → Bytes → Option (Nat × Bytes)
 def hexDigit (n : Nat) : Char :=
   if n < 10 then Char.ofNat (48 + n) else Char.ofNat (87 + n)
 
+/-- hex text of a byte string; the empty string is written `-` (line protocol) -/
 def toHex (bs : Bytes) : String :=
+  if bs.isEmpty then "-" else
   String.ofList (bs.flatMap fun b => [hexDigit (b / 16 % 16), hexDigit (b % 16)])
 
 def hexVal (c : Char) : Nat :=
